@@ -17,15 +17,27 @@ TNS = 'urn:t'
 # value spaces
 # ==================================================================================================
 # pools: value id -> list of lexical forms that denote the same value (first = plain form)
+# Inside one primitive family the first COMMON entries denote the SAME values in every member type (used when compared fields have
+# different but related types); later entries are type specific.
+COMMON = 5
 POOLS = {
-    'string':  [['a'], ['b'], ['A'], [' a'], ['a b'], ['a  b'], ['1'], ['01'], ['']],
+    'string':  [['a'], ['b'], ['A'], ['a b'], ['1'], [' a'], ['a  b'], ['01'], ['']],
+    'normalizedString': [['a'], ['b'], ['A'], ['a b', 'a\tb'], ['1'], [' a'], ['a  b']],
     'token':   [['a', ' a', 'a ', ' a '], ['b', '\tb'], ['A'], ['a b', 'a  b', ' a b '], ['1', ' 1'], ['01']],
-    'integer': [['1', '01', '+1', ' 1 ', '001'], ['0', '00', '+0', '-0'], ['-1', '-01'], ['2', '+2'], ['10', '010'], ['12345678901234567890', '+12345678901234567890']],
-    'decimal': [['1', '1.0', '01', '+1', '1.00'], ['0', '0.0', '-0', '+0.00'], ['1.5', '1.50', '+1.5', '01.5'], ['-1.5', '-1.50'], ['2', '2.0'], ['0.1', '0.10', '00.1']],
+    'integer': [['1', '01', '+1', ' 1 ', '001'], ['0', '00', '+0', '-0'], ['2', '+2'], ['10', '010'], ['7', '07', '+7'], ['-1', '-01'], ['12345678901234567890', '+12345678901234567890']],
+    'decimal': [['1', '1.0', '01', '+1', '1.00'], ['0', '0.0', '-0', '+0.00'], ['2', '2.0'], ['10', '10.0', '010.00'], ['7', '7.0', '+7.00'], ['1.5', '1.50', '+1.5', '01.5'], ['-1.5', '-1.50'], ['0.1', '0.10', '00.1']],
+    'long':    [['1', '01', '+1'], ['0', '00', '+0'], ['2', '+2'], ['10', '010'], ['7', '07', '+7'], ['-1', '-01'], ['9223372036854775807']],
+    'short':   [['1', '01', '+1'], ['0', '00'], ['2', '+2'], ['10', '010'], ['7', '07', '+7'], ['-1'], ['32767']],
+    'nonNegativeInteger': [['1', '01', '+1'], ['0', '00', '+0'], ['2', '+2'], ['10', '010'], ['7', '07', '+7'], ['12345678901234567890']],
     'boolean': [['true', '1', ' true '], ['false', '0']],
     'date':    [['2001-01-01'], ['2001-01-01Z', '2001-01-01+00:00'], ['2001-01-02'], ['2000-02-29Z', '2000-02-29+00:00'], ['1999-12-31']],
     'QName':   [['qa:x', 'qb:x'], ['qa:y', 'qb:y'], ['qc:x'], ['x'], ['y']],
 }
+FAMILY = {'decimal': ['decimal', 'integer', 'long', 'short', 'nonNegativeInteger'], 'string': ['string', 'normalizedString', 'token']}
+FAMILY_OF = {t: f for f, ts in FAMILY.items() for t in ts}
+def related_types(t):
+    """types whose values are comparable with t in the value space (same primitive type); t itself included"""
+    return FAMILY.get(FAMILY_OF.get(t), [t])
 QNAME_NS = {'qa': 'urn:q1', 'qb': 'urn:q1', 'qc': 'urn:q2'}
 CORE_TYPES = ['string', 'token', 'integer', 'decimal', 'boolean']
 EXT_TYPES = ['date', 'QName']
@@ -33,9 +45,10 @@ EXT_TYPES = ['date', 'QName']
 def value_key(tname, lex, nsmap=None):
     """value-space identity of a lexical form (only for forms this module generates)"""
     if tname == 'string': return ('s', lex)
+    if tname == 'normalizedString': return ('s', lex.replace('\t', ' ').replace('\n', ' ').replace('\r', ' '))
     s = ' '.join(lex.split())
     if tname == 'token': return ('s', s)
-    if tname in ('integer', 'decimal'):
+    if tname in FAMILY['decimal']:
         d = Decimal(s if not s.endswith('.') else s + '0')
         return ('d', d.normalize() + 0 if d != 0 else Decimal(0))
     if tname == 'boolean': return ('b', s in ('true', '1'))
@@ -60,6 +73,9 @@ def selftest_pools():
             assert len(ks) == 1, (t, forms, ks)
             keys.append(ks.pop())
         assert len(set(keys)) == len(keys), (t, keys)
+    for fam, ts in FAMILY.items():
+        for i in range(COMMON):
+            assert len({value_key(t, POOLS[t][i][0]) for t in ts}) == 1, (fam, i)
 
 # ==================================================================================================
 # XPath subset
@@ -142,16 +158,20 @@ class ICModel:
         if len(nodes) > 1: return ('multi',)
         if not nodes: return ('absent',)
         n = nodes[0]
-        t = self.typing(n)
+        t = self.typing(n, self.parent)
         if t is None: return ('notsimple',)
         lex = n[1].attrs[n[2]] if isinstance(n, tuple) else n.text()
-        return ('value', value_key(t, lex), lex)
+        return ('value', value_key(t, lex), lex, t)
     def tuples(self, scope, ic):
         """-> list of (target node, [field results])"""
         return [(t, [self.field_value(t, f) for f in ic.fields]) for t in eval_paths(scope, ic.selector)]
     def check(self, root):
         """-> set of violation kinds (empty == valid).  Also fills self.stats."""
-        self.viol = set(); self.stats = {'tuples': 0, 'scopes': 0, 'equal_lex_diff': 0}; self._lex = {}
+        self.viol = set(); self.stats = {'tuples': 0, 'scopes': 0, 'equal_lex_diff': 0, 'cross_type': 0}; self._lex = {}; self._typ = {}
+        self.parent = {}
+        def pm(n):
+            for c in n.elems(): self.parent[id(c)] = n; pm(c)
+        pm(root)
         self._tables(root)
         return self.viol
     def _tables(self, n):
@@ -184,6 +204,8 @@ class ICModel:
                 ks = tuple(v[1] for v in fv); lx = tuple(v[2] for v in fv)
                 if ks in lexseen and lexseen[ks] != lx: self.stats['equal_lex_diff'] += 1
                 lexseen.setdefault(ks, lx); self._lex.setdefault((ic.name, ks), lx)
+                ty = tuple(v[3] for v in fv)
+                if self._typ.setdefault((ic.name, ks), ty) != ty: self.stats['cross_type'] += 1
                 if ks in qualified: self.viol.add('dup-' + ic.kind)
                 else: qualified[ks] = target
             # own entries take precedence over propagated ones
@@ -199,7 +221,9 @@ class ICModel:
                 if any(v[0] != 'value' for v in fv): continue
                 ks = tuple(v[1] for v in fv)
                 if ks not in tab: self.viol.add('keyref-notfound')
-                elif tuple(v[2] for v in fv) != self._lex.get((ic.refer, ks), tuple(v[2] for v in fv)): self.stats['equal_lex_diff'] += 1
+                else:
+                    if tuple(v[2] for v in fv) != self._lex.get((ic.refer, ks), tuple(v[2] for v in fv)): self.stats['equal_lex_diff'] += 1
+                    if tuple(v[3] for v in fv) != self._typ.get((ic.refer, ks), tuple(v[3] for v in fv)): self.stats['cross_type'] += 1
         return tables
 
 # ==================================================================================================
@@ -229,10 +253,13 @@ def render_schema(tns, T, ics, style=0, cmax=2):
     return ('<?xml version="1.0"?>\n<xs:schema%s>\n' % a +
             '  <xs:complexType name="C"><xs:simpleContent><xs:extension base="xs:%s"><xs:attribute name="x" type="xs:%s"/></xs:extension></xs:simpleContent></xs:complexType>\n' % (T['c'], T['cx']) +
             '  <xs:complexType name="J"><xs:simpleContent><xs:extension base="xs:%s"><xs:attribute name="x" type="xs:%s"/></xs:extension></xs:simpleContent></xs:complexType>\n' % (T['j'], T['jx']) +
+            '  <xs:complexType name="CF"><xs:simpleContent><xs:extension base="xs:%s"><xs:attribute name="x" type="xs:%s"/></xs:extension></xs:simpleContent></xs:complexType>\n' % (T['fc'], T['fcx']) +
             '  <xs:complexType name="K">\n    <xs:sequence><xs:element name="c" type="%sC" minOccurs="0" maxOccurs="%d"/></xs:sequence>\n' % (q, cmax) +
             '    <xs:attribute name="x" type="xs:%s"/><xs:attribute name="y" type="xs:%s"/>\n  </xs:complexType>\n' % (T['kx'], T['ky']) +
+            '  <xs:complexType name="F">\n    <xs:sequence><xs:element name="c" type="%sCF" minOccurs="0" maxOccurs="%d"/></xs:sequence>\n' % (q, cmax) +
+            '    <xs:attribute name="x" type="xs:%s"/><xs:attribute name="y" type="xs:%s"/>\n  </xs:complexType>\n' % (T['fx'], T['fy']) +
             '  <xs:complexType name="G">\n    <xs:choice minOccurs="0" maxOccurs="unbounded">\n' +
-            '      <xs:element name="k" type="%sK"/>\n      <xs:element name="f" type="%sK"/>\n      <xs:element name="j" type="%sJ"/>\n' % (q, q, q) +
+            '      <xs:element name="k" type="%sK"/>\n      <xs:element name="f" type="%sF"/>\n      <xs:element name="j" type="%sJ"/>\n' % (q, q, q) +
             '      <xs:element name="n" type="xs:string"/>\n' +
             ('      <xs:element name="g" type="%sG">\n%s      </xs:element>\n' % (q, on_g) if on_g else '      <xs:element name="g" type="%sG"/>\n' % q) +
             '    </xs:choice>\n  </xs:complexType>\n' +
@@ -240,15 +267,20 @@ def render_schema(tns, T, ics, style=0, cmax=2):
             '</xs:schema>\n')
 
 def typing_for(tns, T):
-    def typing(n):
+    def typing(n, parent=None):
+        parent = parent or {}
+        def c_of(el):            # c under k -> type C, c under f -> type CF
+            p = parent.get(id(el))
+            return ('fc', 'fcx') if p is not None and p.name == 'f' else ('c', 'cx')
         if isinstance(n, tuple):
             _, el, key = n
             if key != ('', 'x') and key != ('', 'y'): return None
-            if el.name in ('k', 'f'): return T['kx'] if key[1] == 'x' else T['ky']
-            if el.name == 'c': return T['cx'] if key[1] == 'x' else None
+            if el.name == 'k': return T['kx'] if key[1] == 'x' else T['ky']
+            if el.name == 'f': return T['fx'] if key[1] == 'x' else T['fy']
+            if el.name == 'c': return T[c_of(el)[1]] if key[1] == 'x' else None
             if el.name == 'j': return T['jx'] if key[1] == 'x' else None
             return None
-        if n.name == 'c': return T['c']
+        if n.name == 'c': return T[c_of(n)[0]]
         if n.name == 'j': return T['j']
         if n.name == 'n': return 'string'
         return None
@@ -256,7 +288,9 @@ def typing_for(tns, T):
 
 # field slots of a carrier: how a field path reads it and how a value is written into a Node
 SLOTS_K = {'@x': 'kx', '@y': 'ky', 'c': 'c', 'c/@x': 'cx'}
+SLOTS_F = {'@x': 'fx', '@y': 'fy', 'c': 'fc', 'c/@x': 'fcx'}
 SLOTS_J = {'.': 'j', '@x': 'jx'}
+def slots_for(car): return SLOTS_J if car == 'j' else SLOTS_F if car == 'f' else SLOTS_K
 
 def field_path(expr, tns):
     steps = []; attr = None
@@ -281,6 +315,7 @@ SELECTORS_CORE = [('k', ['k']), ('f', ['f']), ('k|f', ['k', 'f'])]
 SELECTORS_EXT = [('.//k', ['k']), ('g/k', ['k']), ('*/k', ['k']), ('.//g/k', ['k']), ('j', ['j']), ('k|j', ['k', 'j']), ('./k', ['k']), ('.//f', ['f']), ('p:*', ['k', 'f', 'j', 'n', 'g'])]
 
 def set_slot(node, slot, lex, tns):
+    slot = {'fx': 'kx', 'fy': 'ky', 'fc': 'c', 'fcx': 'cx'}.get(slot, slot)
     if slot in ('kx', 'jx'): node.attrs[('', 'x')] = lex
     elif slot == 'ky': node.attrs[('', 'y')] = lex
     elif slot == 'j': node.children = [lex] if lex != '' else []
@@ -296,12 +331,16 @@ def set_slot(node, slot, lex, tns):
             c._needs_text = True
 
 @st.composite
-def gen_case(draw, ext=False, big=False, propagate=False):
+def gen_case(draw, ext=False, big=False, propagate=False, related=True):
     """-> dict(tns, T, ics, style, root Node, plan labels)"""
     tns = draw(st.sampled_from(['', TNS]))
     types = CORE_TYPES + (EXT_TYPES if ext else [])
-    T = {s: draw(st.sampled_from(types)) for s in ('kx', 'ky', 'c', 'cx', 'j', 'jx')}
-    T['jx'] = T['kx']        # selectors may union k and j carriers: keep the compared field of one primitive type
+    if related: types = types + ['decimal', 'integer', 'long', 'nonNegativeInteger', 'normalizedString', 'short']     # bias towards families with several members
+    T = {s: draw(st.sampled_from(types)) for s in ('kx', 'ky', 'c', 'cx', 'j')}
+    # compared positions of different carriers (k / f / j) get types of ONE primitive family: equal (default) or related (3.11.4: value-space
+    # equality; integer 7 = decimal 7.0); cross-primitive pairs are never generated (R2)
+    def rel(t): return draw(st.sampled_from(related_types(t))) if related and draw(st.integers(0, 2)) > 0 else t
+    T['fx'] = rel(T['kx']); T['fy'] = rel(T['ky']); T['fc'] = rel(T['c']); T['fcx'] = rel(T['cx']); T['jx'] = rel(T['kx'])
     style = draw(st.sampled_from([0, 0, 1, 2]))
     sels = SELECTORS_CORE + (SELECTORS_EXT if ext else [])
     # --- primary key-like constraint
@@ -337,10 +376,14 @@ def gen_case(draw, ext=False, big=False, propagate=False):
                       on='g' if ext and draw(st.integers(0, 3)) == 0 else 'r'))
         labels.append('second:' + sel2)
     # --- tuple table for the primary constraint
-    slots_of = lambda f, car: (SLOTS_J if car == 'j' else SLOTS_K)[f]
+    slots_of = lambda f, car: slots_for(car)[f]
     n = draw(st.integers(0, 8)) if not big else draw(st.integers(20, 60))
     mode = draw(st.sampled_from(['distinct', 'distinct', 'plant-dup', 'plant-absent', 'random']))
-    poolsz = {f: len(POOLS[T[slots_of(f, carriers[0])]]) for f in fields}
+    def psize(f):
+        ts = {T[slots_of(f, car)] for car in carriers + (['f'] if have_ref else [])}
+        return COMMON if len(ts) > 1 else len(POOLS[ts.pop()])      # different related types: only the values every member type shares
+    poolsz = {f: psize(f) for f in fields}
+    if any(len({T[slots_of(f, car)] for car in carriers + (['f'] if have_ref else [])}) > 1 for f in fields): labels.append('related-types')
     table = []
     def rnd_tuple():
         return tuple(draw(st.integers(0, poolsz[f] - 1)) for f in fields)
@@ -356,7 +399,7 @@ def gen_case(draw, ext=False, big=False, propagate=False):
     nodes = []
     def lex_of(tname, vid): return draw(st.sampled_from(POOLS[tname][vid]))
     def fill_other(node, car, used):
-        for f, slot in (SLOTS_J if car == 'j' else SLOTS_K).items():
+        for f, slot in slots_for(car).items():
             if f in used: continue
             if not ext and not f.startswith('@'): continue
             if draw(st.booleans()):
@@ -371,7 +414,7 @@ def gen_case(draw, ext=False, big=False, propagate=False):
             node.children = [lex_of(T['j'], draw(st.integers(0, len(POOLS[T['j']]) - 1)))]      # J has simple content: empty text is only valid for xs:string
         for c in node.elems():
             if getattr(c, '_needs_text', False) and not c.children:
-                tn = T['c']; v = lex_of(tn, draw(st.integers(0, len(POOLS[tn]) - 1))); c.children = [v] if v else []
+                tn = T['fc' if car == 'f' else 'c']; v = lex_of(tn, draw(st.integers(0, len(POOLS[tn]) - 1))); c.children = [v] if v else []
         return node
     for i, tup in enumerate(table):
         car = draw(st.sampled_from(carriers))
@@ -391,7 +434,7 @@ def gen_case(draw, ext=False, big=False, propagate=False):
     if ext and 'c' in fields and draw(st.integers(0, 5)) == 0 and nodes:
         v = draw(st.sampled_from([x for x in nodes if x.name in ('k', 'f')] or nodes))
         if v.name in ('k', 'f') and len([c for c in v.elems() if c.name == 'c']) == 1:
-            v.children.append(xm.Node(tns, 'c', children=['a'] if T['c'] in ('string', 'token') else [POOLS[T['c']][0][0]])); labels.append('planted:multi')
+            v.children.append(xm.Node(tns, 'c', children=[POOLS[T['fc' if v.name == 'f' else 'c']][0][0]])); labels.append('planted:multi')
     # noise + order
     for _ in range(draw(st.integers(0, 3))): nodes.append(xm.Node(tns, 'n', children=['noise']))
     nodes = list(draw(st.permutations(nodes)))
@@ -427,7 +470,8 @@ def extended(case, root, k=5):
     ic = case['ics'][0]; T = case['T']; tns = case['tns']
     if len([x for x in case['ics'] if x.kind != 'keyref']) != 1: return None      # fresh carriers must not meet another constraint
     r = root.copy()
-    fresh = {'integer': lambda i: str(1000 + i), 'decimal': lambda i: '%d.25' % (1000 + i), 'string': lambda i: 'fresh%d' % i, 'token': lambda i: 'fresh%d' % i}
+    fresh = {'integer': lambda i: str(1000 + i), 'decimal': lambda i: '%d.25' % (1000 + i), 'string': lambda i: 'fresh%d' % i, 'token': lambda i: 'fresh%d' % i,
+             'long': lambda i: str(1000 + i), 'short': lambda i: str(1000 + i), 'nonNegativeInteger': lambda i: str(1000 + i), 'normalizedString': lambda i: 'fresh%d' % i}
     sel0 = ic.selector[0]
     last = sel0['steps'][-1]
     if last == '*' or last[1] == '*': return None
@@ -439,12 +483,12 @@ def extended(case, root, k=5):
         for f in ic.fields:
             p = f[0]
             expr = '/'.join([s[1] if s != '.' else '.' for s in p['steps']] + (['@' + p['attr'][1]] if p['attr'] else []))
-            slot = (SLOTS_J if car == 'j' else SLOTS_K).get(expr)
+            slot = slots_for(car).get(expr)
             if slot is None or T[slot] not in fresh: return None
             set_slot(node, slot, fresh[T[slot]](i), tns)
         for c in node.elems():
             if getattr(c, '_needs_text', False) and not c.children:
-                c.children = [POOLS[T['c']][0][0]]
+                c.children = [POOLS[T['fc' if car == 'f' else 'c']][0][0]]
         if car == 'j' and not node.children and T['j'] != 'string': node.children = [POOLS[T['j']][0][0]]
         r.children.append(node)
     return r
